@@ -15,10 +15,10 @@ import (
 // sharing one function code.
 
 const (
-	eDirect   = 0 // f_j(d - 1)
-	eLambda   = 1 // (lambda: f_j(d - 1))()
-	eCallback = 2 // sorted/min/max([d - 1], key=f_j)
-	eTwin     = 3 // f_jb(d - 1): the second closure made from the same def
+	eDirect    = 0 // f_j(d - 1)
+	eLambda    = 1 // (lambda: f_j(d - 1))()
+	eCallback  = 2 // sorted/min/max([d - 1], key=f_j)
+	eTwin      = 3 // f_jb(d - 1): the second closure made from the same def
 	nEdgeKinds = 4
 )
 
